@@ -528,6 +528,53 @@ def h_norm_xy(n):
         prove(f"affine_is_the_normalisation{k}", And(ex(px) == ex(XX[k, 0]), ex(py) == ex(XX[k, 1])))
 
 
+# ---- N12 Poly2d composition with an input transform ---------------------------------------------------
+def h_poly2d_compose(order, kind):
+    """Poly2d.with_input_transform(B): the new polynomial at (x, y) is the old one at B * (x, y) --
+    for axis-aligned B with different scales per axis, mirrored axes, and rotated B (the two input
+    normalisation branches); grid2d agrees with pointwise evaluation"""
+    import numpy as real_np
+    from affine import Affine
+
+    import odc.geo.math as m
+
+    n = order + 1
+    rng = real_np.random.RandomState(7)
+    cc = (rng.randint(-4, 5, size=(n, n, 2)) / 2.0).astype("float64")
+    if order == 1:
+        cc[1, 1, :] = 0.0
+    if kind == "rot_large_coordinates":
+        # what fit() produces for control points with coordinates around 1e7 (UTM northings): a
+        # normalisation scale around 1e-7
+        a0 = Affine(rconst(F(1, 10**7)), 0.0, Real("tx0"), 0.0, rconst(F(1, 10**7)), Real("ty0"))
+    else:
+        a0 = Affine(Real("sx0"), 0.0, Real("tx0"), 0.0, Real("sy0"), Real("ty0"))
+        # (normalisation scales below 1e-5 are the next case's subject)
+        assume(And(abs(a0.a) >= F(1, 10**5), abs(a0.e) >= F(1, 10**5)))
+    if kind == "axis":
+        B = Affine(Real("bx"), 0.0, Real("btx"), 0.0, Real("by"), Real("bty"))
+    elif kind == "mirror":
+        B = Affine(rconst(1), 0.0, rconst(0), 0.0, rconst(-1), Real("H"))
+    else:
+        B = Affine(rconst(F(3, 5)), rconst(F(-4, 5)), Real("btx"), rconst(F(4, 5)), rconst(F(3, 5)), Real("bty"))
+    p = m.Poly2d(cc, a0)
+    q = p.with_input_transform(B)
+    x, y = Real("x"), Real("y")
+    if kind == "rot_large_coordinates":
+        assume(And(abs(x) >= 10**6, abs(x) <= 10**7, abs(y) >= 10**6, abs(y) <= 10**7))
+    bx_, by_ = B * (x, y)
+    want = p(bx_, by_)
+    got = q(x, y)
+    tol = F(1, 10**6) if symx.concrete_mode() else 0
+    for k in range(2):
+        w_, g_ = ex(want[k]), ex(got[k])
+        prove(f"composed_value_{k}", abs(w_ - g_) <= tol * (1 + abs(w_)))
+    if kind in ("axis", "mirror"):
+        gg = q.grid2d(real_np.asarray([x], dtype=object) if not symx.concrete_mode() else real_np.asarray([x]), real_np.asarray([y], dtype=object) if not symx.concrete_mode() else real_np.asarray([y]))
+        for k in range(2):
+            prove(f"grid_value_{k}", abs(ex(gg[k][0][0]) - ex(got[k])) <= tol * (1 + abs(ex(got[k]))))
+
+
 # ---- N10 split_translation -----------------------------------------------------------------------
 def h_split_translation():
     from odc.geo.types import xy_
@@ -735,5 +782,10 @@ OBLIGATIONS = [
     Ob("N11_norm_xy", h_norm_xy, fixed(dict(n=2), dict(n=3)), descr="norm_xy: mean at 0, mean distance sqrt(2) (its docstring), affine = the normalisation, finite also when a point is the centroid",
        functions=("odc.geo.math.norm_xy",), bounds="2-3 points on a horizontal line with symbolic abscissae, not all equal (keeps distances linear); object-dtype numpy arrays carry the symbolic reals through the real numpy calls",
        stubs=("sqrt as a fresh non-negative root",), setup=setup, fresh_only=True, timeout_ms=30000),
+    Ob("N12_poly2d_compose", h_poly2d_compose, fixed(*[dict(order=o, kind=k) for o in (1, 2) for k in ("axis", "mirror", "rot", "rot_large_coordinates")]),
+       descr="Poly2d.with_input_transform(B)(x, y) == Poly2d(B * (x, y)) for axis-aligned (different scales per axis), mirrored and rotated B; grid2d agrees with pointwise evaluation",
+       functions=("odc.geo.math.Poly2d.__init__", "odc.geo.math.Poly2d.with_input_transform", "odc.geo.math.Poly2d.__call__", "odc.geo.math.Poly2d.grid2d"),
+       bounds="coefficient arrays of order 1 and 2 with fixed small rational entries; normalisation affine, input transform and evaluation point symbolic (rotation 3-4-5)",
+       stubs=("numpy's polyval / polyval2d run on the symbolic reals themselves (object dtype)",), setup=setup, fresh_only=True, timeout_ms=30000),
     Ob("N10_split_translation", h_split_translation, fixed(), descr="split_translation", functions=("odc.geo.math.split_translation",), setup=setup),
 ]
